@@ -5,6 +5,7 @@ import (
 	"go/token"
 	"go/types"
 	"sort"
+	"strings"
 
 	"golang.org/x/tools/go/ssa"
 )
@@ -42,7 +43,7 @@ func (fr *frame) call(instr *ssa.Call, c *ssa.CallCommon, st *State) Value {
 		}
 		// receiver nil check is done by the callee's own dereferences; for contracts we need non-nil receivers explicitly
 		if ct := fx.E.S.Contracts[name]; ct != nil && !ct.Inline {
-			return fr.callContract(callee, ct, args, st, resT, pos)
+			return fr.callContract(callee, ct, args, st, resT, pos, c)
 		}
 		if fr.canInline(callee) {
 			return fr.inline(callee, args, st, resT, pos)
@@ -59,6 +60,21 @@ func (fr *frame) call(instr *ssa.Call, c *ssa.CallCommon, st *State) Value {
 		}
 		fx.note("external call %s: assumed to write only memory reachable from its arguments; result unconstrained", extName(ext))
 		return fr.havocCall(fx.E.externalModset(ext, c.Args), st, resT, extName(ext))
+	}
+	// call through a function-typed parameter that has a behavioural contract
+	if !c.IsInvoke() && fr.contract != nil && fr.prefix == "" {
+		if p := paramOfValue(c.Value); p != nil {
+			if fp, ok := fr.contract.FuncParams[p.Name()]; ok {
+				like := fx.E.P.Funcs[fp.Like]
+				lct := fx.E.S.Contracts[fp.Like]
+				recv, okr := fr.params[fp.Recv]
+				if like != nil && lct != nil && okr {
+					fr.viaFuncParam = true
+					defer func() { fr.viaFuncParam = false }()
+					return fr.callContract(like, lct, append([]Value{recv}, args...), st, resT, pos, nil)
+				}
+			}
+		}
 	}
 	// dynamic call
 	m := fx.E.callMods(c)
@@ -214,7 +230,7 @@ func (fr *frame) curReachNarrow(c Term) {
 }
 
 // callContract applies a callee's contract: check requires, havoc its write set, assume ensures.
-func (fr *frame) callContract(callee *ssa.Function, ct *Contract, args []Value, st *State, resT types.Type, pos token.Pos) Value {
+func (fr *frame) callContract(callee *ssa.Function, ct *Contract, args []Value, st *State, resT types.Type, pos token.Pos, cc *ssa.CallCommon) Value {
 	fx := fr.fx
 	name := FuncName(callee)
 	sub := &frame{fx: fx, fn: callee, name: name, params: fr.bindParams(callee, args), level: fr.level, prefix: fr.prefix, depth: fr.depth, curReach: fr.curReach}
@@ -223,6 +239,9 @@ func (fr *frame) callContract(callee *ssa.Function, ct *Contract, args []Value, 
 		if _, ok := under(callee.Params[0].Type()).(*types.Pointer); ok {
 			fr.oblige("nil", "recv."+callee.Name(), Ne(args[0].T, "0"), pos)
 		}
+	}
+	if cc != nil && len(ct.FuncParams) > 0 {
+		fr.checkFuncParams(callee, ct, cc, args, pos)
 	}
 	ev := sub.env(st, pre, nil)
 	ev.local = nil
@@ -272,6 +291,9 @@ func (fr *frame) callContract(callee *ssa.Function, ct *Contract, args []Value, 
 		for _, c := range group {
 			if facetLevel[c.Facet] > fr.level {
 				continue
+			}
+			if fr.viaFuncParam && strings.HasPrefix(c.Label, "own") {
+				continue // clause specific to the concrete method, not part of the behavioural interface
 			}
 			t, err := ev2.EvalBool(c.E)
 			if err != nil {
@@ -517,4 +539,90 @@ func (fr *frame) assumeFreshResults(callee *ssa.Function, res Value, pre *State)
 	for i := 0; i < n && i < len(res.Elems); i++ {
 		one(i, res.Elems[i])
 	}
+}
+
+// paramOfValue traces a value to the parameter it was copied from (directly or through its spill cell).
+func paramOfValue(v ssa.Value) *ssa.Parameter {
+	switch x := v.(type) {
+	case *ssa.Parameter:
+		return x
+	case *ssa.UnOp:
+		a, ok := x.X.(*ssa.Alloc)
+		if !ok || !isCell(a) {
+			return nil
+		}
+		var p *ssa.Parameter
+		for _, r := range *a.Referrers() {
+			if st, ok := r.(*ssa.Store); ok && st.Addr == a {
+				q, ok := st.Val.(*ssa.Parameter)
+				if !ok || (p != nil && p != q) {
+					return nil
+				}
+				p = q
+			}
+		}
+		return p
+	}
+	return nil
+}
+
+// checkFuncParams: the actual argument must be a method value of a method whose contract reads the same as the
+// declared one, bound to the declared receiver.
+func (fr *frame) checkFuncParams(callee *ssa.Function, ct *Contract, cc *ssa.CallCommon, args []Value, pos token.Pos) {
+	fx := fr.fx
+	off := 0 // in call mode the receiver is Args[0]
+	for name, fp := range ct.FuncParams {
+		idx, recvIdx := -1, -1
+		for i, p := range callee.Params {
+			if p.Name() == name {
+				idx = i
+			}
+			if p.Name() == fp.Recv {
+				recvIdx = i
+			}
+		}
+		ok := False
+		why := "not a method value"
+		if idx >= off && idx-off < len(cc.Args) && recvIdx >= 0 {
+			if mc, is := cc.Args[idx-off].(*ssa.MakeClosure); is {
+				w := mc.Fn.(*ssa.Function)
+				if obj, isf := w.Object().(*types.Func); isf && len(mc.Bindings) == 1 {
+					m := fx.E.P.SSA.FuncValue(obj)
+					if m != nil {
+						mname := FuncName(m)
+						if sameContract(fx.E.S.Contracts[mname], fx.E.S.Contracts[fp.Like]) {
+							ok = Eq(fr.val(mc.Bindings[0]).T, args[recvIdx].T)
+							why = ""
+						} else {
+							why = "contract of " + mname + " differs from " + fp.Like
+						}
+					}
+				}
+			}
+		}
+		if why != "" {
+			fx.enc.Comment("funcparam " + name + ": " + why)
+		}
+		o := fx.enc.Oblige(fx.root, "funcparam", fr.prefix+callee.Name()+"."+name, Implies(fr.curReach, ok), fr.pos(pos))
+		o.Facet = "S"
+	}
+}
+
+func sameContract(a, b *Contract) bool {
+	if a == nil || b == nil {
+		return false
+	}
+	sig := func(c *Contract) string {
+		var sb []string
+		for _, g := range [][]*Clause{c.Requires, c.Ensures, c.Preserves} {
+			for _, cl := range g {
+				if strings.HasPrefix(cl.Label, "own") {
+					continue
+				}
+				sb = append(sb, cl.Kind+"["+cl.Facet+"]"+strings.Join(strings.Fields(cl.Src), " "))
+			}
+		}
+		return strings.Join(sb, ";")
+	}
+	return sig(a) == sig(b)
 }
